@@ -13,7 +13,10 @@ import (
 )
 
 // C28: every public start path x {port 0, fixed free port} x {debug on/off} x {AUTH_NONE, AUTH_SYS} against a
-// conformant record-marking client (rpcclient.go): NULL, MOUNT3 MNT of the export path, NFS3 GETATTR of the handle.
+// conformant record-marking client (rpcclient.go): NULL, MOUNT3 MNT of the export path, NFS3 GETATTR of the handle,
+// the calls being delivered in varied TCP segmentations (whole records, byte at a time, cuts inside the record mark,
+// at the mark/payload boundary, inside the RPC header, multi-fragment records, pipelined pairs whose boundary lies
+// inside a segment; TCP_NODELAY and a few ms between pieces).  Segmentation must never change an outcome.
 // Listen with UseRecordMarking=false is included as a negative control (the model predicts raw framing: the
 // record-marked client must NOT get a well-formed reply), and the refused calls (empty mount path, negative port).
 func init() {
@@ -34,6 +37,122 @@ type c28In struct {
 	mount   string // Export's mountPath and the path sent in MNT ("" = refused Export)
 	host    string
 	authSys bool
+	seg     int   // how the client cuts its calls into TCP pieces / record fragments (segNames)
+	r       *Rand // source of the cut positions (derived from seed and case index)
+}
+
+// Segmentation of the client's byte stream.  TCP is a byte stream: none of this may change any outcome.
+const (
+	segWhole = iota
+	segBytewise
+	segMark1
+	segMark2
+	segMark3
+	segBoundary
+	segHeader
+	segMultiFrag
+	segMultiFragCutMark
+	segPipelined
+	segRandom
+)
+
+var segNames = []string{"whole-records", "byte-at-a-time", "cut-in-mark-after-1", "cut-in-mark-after-2", "cut-in-mark-after-3",
+	"cut-at-mark-payload-boundary", "cut-in-rpc-header", "multi-fragment-record", "multi-fragment-cut-in-2nd-mark",
+	"pipelined-boundary-inside-segment", "random-cuts"}
+
+const segGap = 3 * time.Millisecond
+
+// plan turns one call message into the bytes to put on the wire and the offsets at which to cut them.
+func (in c28In) plan(msg []byte) (stream []byte, cuts []int, gap time.Duration, nfrag int) {
+	r := in.r
+	gap = segGap
+	var frags []int
+	switch in.seg {
+	case segMultiFrag:
+		for k := 1 + r.Intn(3); k > 0; k-- {
+			n := 1 + r.Intn(len(msg)/2)
+			if r.Chance(10) {
+				n = 0 // an empty non-last fragment is legal
+			}
+			frags = append(frags, n)
+		}
+	case segMultiFragCutMark:
+		frags = []int{4 * (1 + r.Intn(len(msg)/4-1))}
+	}
+	stream, marks := record(msg, frags)
+	nfrag = len(marks)
+	switch in.seg {
+	case segBytewise:
+		gap = 400 * time.Microsecond
+		for i := 1; i < len(stream); i++ {
+			cuts = append(cuts, i)
+		}
+	case segMark1, segMark2, segMark3:
+		cuts = []int{in.seg - segMark1 + 1}
+	case segBoundary:
+		cuts = []int{4}
+	case segHeader:
+		cuts = []int{5 + r.Intn(39)}
+	case segMultiFrag:
+		if r.Bool() { // also cut somewhere, possibly inside a later mark
+			cuts = []int{marks[len(marks)-1] + r.Intn(5)}
+		}
+	case segMultiFragCutMark:
+		cuts = []int{marks[1] + 1 + r.Intn(3)}
+	case segRandom:
+		seen := map[int]bool{}
+		for k := 1 + r.Intn(4); k > 0; k-- {
+			seen[1+r.Intn(len(stream)-1)] = true
+		}
+		for i := 1; i < len(stream); i++ {
+			if seen[i] {
+				cuts = append(cuts, i)
+			}
+		}
+	}
+	return
+}
+
+// exchange sends one call as planned and reads its reply.
+func (in c28In) exchange(cl *rpcClient, prog, vers, proc uint32, args []byte, tags map[string]int, note *[]string) exchGo {
+	xid := cl.nextXid()
+	stream, cuts, gap, nfrag := in.plan(cl.callMsg(xid, prog, vers, proc, args))
+	sizes, err := cl.sendCut(stream, cuts, gap)
+	tags["tcp_pieces"] += len(sizes)
+	tags["request_fragments"] += nfrag
+	*note = append(*note, fmt.Sprintf("%d fragment(s) in pieces %v", nfrag, sizes))
+	e := exchGo{xid: xid}
+	if err == nil {
+		e.raw, err = cl.readReply()
+	}
+	e.ioerr = err != nil
+	return e
+}
+
+// pipelined sends two calls back to back, cut so that one TCP piece carries the end of the first record and the
+// first b bytes of the second (b < 4: the second record mark itself is split), then reads the two replies in order.
+func (in c28In) pipelined(cl *rpcClient, a, b [3]uint32, argsA, argsB []byte, tags map[string]int, note *[]string) (exchGo, exchGo) {
+	xa, xb := cl.nextXid(), cl.nextXid()
+	ra, _ := record(cl.callMsg(xa, a[0], a[1], a[2], argsA), nil)
+	rb, _ := record(cl.callMsg(xb, b[0], b[1], b[2], argsB), nil)
+	back := 1 + in.r.Intn(8)
+	fwd := PickInt(in.r, 1, 2, 3, 1, 2, 3, 4, 9)
+	sizes, err := cl.sendCut(append(append([]byte{}, ra...), rb...), []int{len(ra) - back, len(ra) + fwd}, segGap)
+	tags["tcp_pieces"] += len(sizes)
+	tags["request_fragments"] += 2
+	tags["pipelined_pairs"]++
+	*note = append(*note, fmt.Sprintf("two records (%d+%d bytes) in pieces %v", len(ra), len(rb), sizes))
+	ea, eb := exchGo{xid: xa, ioerr: true}, exchGo{xid: xb, ioerr: true}
+	if err != nil {
+		return ea, eb
+	}
+	if ea.raw, err = cl.readReply(); err != nil {
+		return ea, eb
+	}
+	ea.ioerr = false
+	eb.raw, err = cl.readReply()
+	eb.ioerr = err != nil
+	return ea, eb
 }
 
 func freePort() int {
@@ -122,6 +241,11 @@ func runC28(in c28In, kind string, idx int) Case {
 		tags["debug_on"]++
 	}
 	null, mnt, ga := exchGo{ioerr: true}, exchGo{ioerr: true}, exchGo{ioerr: true}
+	var extra []exchGo // further NULL calls (the second call of a pipelined pair)
+	var segNote []string
+	if in.r == nil {
+		in.r = NewRand(28, uint64(idx))
+	}
 	if startErr == nil {
 		host := in.host
 		if host == "" {
@@ -135,19 +259,35 @@ func runC28(in c28In, kind string, idx int) Case {
 			} else {
 				tags["auth_none"]++
 			}
-			var e error
-			null.xid, null.raw, e = cl.call(progNFS, 3, 0, nil)
-			null.ioerr = e != nil
-			if e == nil {
-				mnt.xid, mnt.raw, e = cl.call(progMount, 3, 1, xdrOpaque([]byte(in.mount)))
-				mnt.ioerr = e != nil
-				if e == nil {
-					if res, denied, perr := acceptedResult(mnt.raw, mnt.xid); perr == nil && !denied && len(res) >= 8 {
-						n := int(res[4])<<24 | int(res[5])<<16 | int(res[6])<<8 | int(res[7])
-						if n <= 64 && len(res) >= 8+n {
-							ga.xid, ga.raw, e = cl.call(progNFS, 3, 1, fhArg(res[8:8+n]))
-							ga.ioerr = e != nil
-						}
+			if tc, ok := cl.conn.(*net.TCPConn); ok {
+				tc.SetNoDelay(true) // every Write leaves as its own segment
+			}
+			tags["seg_"+segNames[in.seg]]++
+			handleOf := func(m exchGo) []byte {
+				if m.ioerr {
+					return nil
+				}
+				if res, denied, perr := acceptedResult(m.raw, m.xid); perr == nil && !denied && len(res) >= 8 {
+					n := int(res[4])<<24 | int(res[5])<<16 | int(res[6])<<8 | int(res[7])
+					if n <= 64 && len(res) >= 8+n {
+						return res[8 : 8+n]
+					}
+				}
+				return nil
+			}
+			if in.seg == segPipelined {
+				null, mnt = in.pipelined(cl, [3]uint32{progNFS, 3, 0}, [3]uint32{progMount, 3, 1}, nil, xdrOpaque([]byte(in.mount)), tags, &segNote)
+				if fh := handleOf(mnt); fh != nil {
+					var x exchGo
+					ga, x = in.pipelined(cl, [3]uint32{progNFS, 3, 1}, [3]uint32{progNFS, 3, 0}, fhArg(fh), nil, tags, &segNote)
+					extra = append(extra, x)
+				}
+			} else {
+				null = in.exchange(cl, progNFS, 3, 0, nil, tags, &segNote)
+				if !null.ioerr {
+					mnt = in.exchange(cl, progMount, 3, 1, xdrOpaque([]byte(in.mount)), tags, &segNote)
+					if fh := handleOf(mnt); fh != nil {
+						ga = in.exchange(cl, progNFS, 3, 1, fhArg(fh), tags, &segNote)
 					}
 				}
 			}
@@ -171,17 +311,35 @@ func runC28(in c28In, kind string, idx int) Case {
 		tags["negative_control_raw"]++
 	}
 	tags["ms"] = int(time.Since(t0) / time.Millisecond)
-	coq := fmt.Sprintf("(mkCase %s %s %s %s %s %s %s)", coqPath, cstr(in.mount), CBool(unavailable), CBool(startErr == nil),
-		null.coq(), mnt.coq(), ga.coq())
-	txt := fmt.Sprintf("%s auth_sys=%v -> started=%v (err=%v) port=%d unavailable=%v\n NULL xid=%#x ioerr=%v reply=%x\n MNT %q xid=%#x ioerr=%v reply=%x\n GETATTR xid=%#x ioerr=%v reply=%x",
-		pathTxt, in.authSys, startErr == nil, startErr, actual, unavailable, null.xid, null.ioerr, null.raw, in.mount, mnt.xid, mnt.ioerr, mnt.raw,
+	for _, e := range extra {
+		if !e.ioerr {
+			if _, denied, err := acceptedResult(e.raw, e.xid); err == nil && !denied {
+				tags["extra_replies_ok"]++
+			}
+		}
+	}
+	ex := make([]string, len(extra))
+	for i, e := range extra {
+		ex[i] = e.coq()
+	}
+	coq := fmt.Sprintf("(mkCase %s %s %s %s %s %s %s %s %s)", coqPath, cstr(in.mount), cstr(segNames[in.seg]), CBool(unavailable), CBool(startErr == nil),
+		null.coq(), mnt.coq(), ga.coq(), CList(ex))
+	txt := fmt.Sprintf("%s auth_sys=%v -> started=%v (err=%v) port=%d unavailable=%v\n client segmentation: %s: %s\n NULL xid=%#x ioerr=%v reply=%x\n MNT %q xid=%#x ioerr=%v reply=%x\n GETATTR xid=%#x ioerr=%v reply=%x",
+		pathTxt, in.authSys, startErr == nil, startErr, actual, unavailable, segNames[in.seg], strings.Join(segNote, "; "), null.xid, null.ioerr, null.raw, in.mount, mnt.xid, mnt.ioerr, mnt.raw,
 		ga.xid, ga.ioerr, ga.raw)
+	for _, e := range extra {
+		txt += fmt.Sprintf("\n NULL(pipelined) xid=%#x ioerr=%v reply=%x", e.xid, e.ioerr, e.raw)
+	}
 	return Case{Index: idx, Kind: kind, Coq: coq, Tags: tags, Text: txt}
 }
 
 func genC28(r *Rand, idx int, tier string) Case {
 	in := c28In{debug: r.Bool(), rm: true, mount: PickStr(r, "/", "/", "/export"), host: PickStr(r, "", "localhost", "127.0.0.1"),
-		authSys: r.Bool(), port: r.Intn(2)}
+		authSys: r.Bool(), port: r.Intn(2), r: r}
+	// client-side segmentation: 10% whole records, the rest spread over the ten ways of cutting the stream
+	if !r.Chance(10) {
+		in.seg = 1 + r.Intn(len(segNames)-1)
+	}
 	kind := ""
 	switch x := r.Intn(100); {
 	case x < 40:
@@ -193,9 +351,10 @@ func genC28(r *Rand, idx int, tier string) Case {
 		in.path, kind = 2, "start-with-portmapper"
 		in.rm = r.Bool()
 	case x < 87:
-		in.path, in.rm, kind = 1, false, "listen-raw-control"
+		in.path, in.rm, in.seg, kind = 1, false, segWhole, "listen-raw-control"
 	default:
 		kind = "refused"
+		in.seg = segWhole
 		switch r.Intn(3) {
 		case 0:
 			in.path, in.mount, in.debug, in.host = 0, "", false, ""
@@ -216,5 +375,12 @@ func corpusC28() []Case {
 		runC28(c28In{path: 1, port: 0, rm: true, debug: true, mount: "/", host: "localhost"}, "listen-rm-debug", 2),
 		runC28(c28In{path: 2, port: 0, rm: false, mount: "/", host: "localhost", authSys: true}, "start-with-portmapper", 3),
 		runC28(c28In{path: 1, port: 0, rm: false, mount: "/", host: "localhost"}, "listen-raw-control", 4),
+		// seeded C28-2 (record mark read with one Read): the mark of every call arrives in two TCP segments
+		runC28(c28In{path: 0, port: 0, mount: "/", rm: true, seg: segMark2}, "export-mark-split-2", 5),
+		runC28(c28In{path: 1, port: 0, rm: true, mount: "/", host: "localhost", seg: segMark1, authSys: true}, "listen-mark-split-1", 6),
+		runC28(c28In{path: 2, port: 0, rm: true, mount: "/", host: "localhost", seg: segMark3}, "start-with-portmapper-mark-split-3", 7),
+		runC28(c28In{path: 0, port: 0, mount: "/export", rm: true, seg: segPipelined, authSys: true}, "export-pipelined", 8),
+		runC28(c28In{path: 1, port: 0, rm: true, debug: true, mount: "/", host: "127.0.0.1", seg: segBytewise}, "listen-byte-at-a-time", 9),
+		runC28(c28In{path: 0, port: 1, mount: "/", rm: true, seg: segMultiFragCutMark}, "export-multi-fragment-cut-in-mark", 10),
 	}
 }
